@@ -21,9 +21,9 @@ def key(o):
 # explicit dispositions: (file suffix, func, expr substring) -> (disp, args)
 SITES = [
  # front-ends
- ("openapi/generator.go", "(*generator).walkEnum", "schema.Type.Slice()[0]", ("site", "OpenApi.walkDefinitions", "walkEnum: Type.Slice()[0]", "okSchema: enum ⇒ typeHead", "C04/openapi/enum-without-type")),
+ ("openapi/generator.go", "(*generator).walkEnum", "schema.Type.Slice()[0]", ("site", "OpenApi.walkDefinitions", "walkEnum: Type.Slice()[0]", "guarded since fix 70c59a6 (the site is an `err` in the current model, a panic in generateASTPreFix)", "")),
  ("openapi/utils.go", "getConstraints", "schema.Type.Slice()[0]", ("site", "OpenApi.getConstraints", "getConstraints: Type.Slice()[0]", "unreachable: scalarOf_noPanic (only called under Type.Is)", "")),
- ("jsonschema/generator.go", "(*generator).walkList", "schema.Items.(*schemaparser.Schema)", ("site", "JsonSchema.walkArr", "walkList: Items.(*Schema)", "okItems: not the tuple form", "C04/jsonschema/tuple-items")),
+ ("jsonschema/generator.go", "(*generator).walkList", "schema.Items.(*schemaparser.Schema)", ("site", "JsonSchema.walkArr", "walkList: Items.(*Schema)", "comma-ok since fix f0d68ac", "")),
  ("jsonschema/generator.go", "(*generator).walkObject", "schema.AdditionalProperties.(*schemaparser.Schema)", ("site", "JsonSchema.walkObject", "walkObject: AdditionalProperties.(*Schema)", "okAddl: nil | bool | *Schema (library invariant)", "")),
  ("jsonschema/generator.go", "(*generator).walkBool", "schema.Constant[0]", ("site", "JsonSchema.typedConstant", "Constant[0]", "constantOk: Constant nil or non-empty (library invariant)", "")),
  ("jsonschema/generator.go", "(*generator).walkNumber", "schema.Constant[0]", ("site", "JsonSchema.typedConstant", "Constant[0]", "constantOk", "")),
@@ -57,7 +57,7 @@ SITES = [
  ("ast/types.go", "Type.IsDataqueryVariant", ".(string)", ("finding", "C04/yaml/implements-variant-not-string")),
  ("ast/types.go", "EnumType.MemberForValue", "Values[0].Type.Scalar", ("finding", "C04/enum/empty-or-untyped-default-lookup")),
  # builders
- ("ast/builder.go", "(*BuilderGenerator).structObjectToBuilder", "ResolveToType(object.Type).AsStruct()", ("site", "Builder.fromAST", "AsStruct", "Safe", "C04/fromast/dangling-alias")),
+ ("ast/builder.go", "(*BuilderGenerator).structObjectToBuilder", "ResolveToType(object.Type).AsStruct()", ("site", "Builder.fromAST", "AsStruct", "Safe; IsStruct() guard since fix eed3e31", "")),
  ("ast/builder.go", "(*BuilderGenerator).structObjectToBuilder", "resolvedType.AsScalar()", ("site", "Builder.fromAST", "AsScalar", "Safe", "")),
  ("ast/builder.go", "WithTypeConstraints", "constraint.Args[0]", ("site", "Builder.withTypeConstraints", "WithTypeConstraints: Args[0]", "constraintsSafe (Safe)", "C04/yaml/constraint-without-args")),
  ("ast/builder.go", "Path.Last", "path[len(path)-1]", ("site", "Builder.Veneers", "Path.Last", "optShapeOk: non-empty path", "")),
@@ -70,10 +70,10 @@ SITES = [
  ("veneers/option/actions.go", "disjunctionAsOptions", "option.Args[argIndex]", ("site", "Builder.disjunctionAsOptionsAction", "option.Args[argumentIndex]", "disjunctionIndexOk", "C04/veneers/disjunction-as-options-index")),
  ("veneers/option/actions.go", "disjunctionStructAsOptions", "option.Args[argIndex]", ("site", "Builder.disjunctionAsOptionsAction", "option.Args[argumentIndex]", "disjunctionIndexOk (checked by the caller's index)", "C04/veneers/disjunction-as-options-index")),
  ("tools/types.go", "AnyToInt64", "value.(int64)", ("finding", "C04/tools/any-to-int64")),
- ("codegen/pipeline.go", "(*Pipeline).interpolateParameters", "pipeline.Inputs", ("finding", "C04/config/null-list-element")),
- ("codegen/pipeline.go", "(*Pipeline).LoadSchemas", "pipeline.Inputs", ("finding", "C04/config/null-list-element")),
- ("codegen/pipeline.go", "(*Pipeline).OutputLanguages", "pipeline.Output.Languages", ("finding", "C04/config/null-list-element")),
- ("codegen/output.go", "(*Output).interpolateParameters", "output.Languages", ("finding", "C04/config/null-list-element")),
+ ("codegen/pipeline.go", "(*Pipeline).interpolateParameters", "pipeline.Inputs", ("guardedElsewhere", "nil entries are skipped / reported since fix 15208a9")),
+ ("codegen/pipeline.go", "(*Pipeline).LoadSchemas", "pipeline.Inputs", ("guardedElsewhere", "nil entries are skipped / reported since fix 15208a9")),
+ ("codegen/pipeline.go", "(*Pipeline).OutputLanguages", "pipeline.Output.Languages", ("guardedElsewhere", "nil entries are skipped / reported since fix 15208a9")),
+ ("codegen/output.go", "(*Output).interpolateParameters", "output.Languages", ("guardedElsewhere", "nil entries are skipped / reported since fix 15208a9")),
  ("codegen/output.go", "(*Output).interpolateParameters", "output.TemplatesData[key]", ("dispatch", "the write happens inside a range over the same map: a nil map has no iteration")),
  ("codegen/options.go", "Parameters", "pipeline.Parameters[key] = value", ("freshMap", "PipelineFromFile / NewPipeline assign the map before decoding; `parameters: ~` leaves it (yaml.v3 null does not reset a map)")),
  ("codegen/input.go", "(*Input).shouldLoadSchemas", "output.(bool)", ("guardedElsewhere", "the comma-ok form two lines above returns an error first")),
